@@ -242,7 +242,7 @@ def _run_property(mod, mod_name, prop, tier, seed, timer, only):
             continue
         has_failure = any(k[0] == sub.name for k in buckets)
         for cls, share in sub.min_share.items():
-            got = rec.classes.get(cls, 0) / float(rec.evaluations)
+            got = rec.classes.get(cls, 0) / float(max(1, rec.cases))
             if got < share and not has_failure:
                 starved.append("%s: class %s share %.4f < %.4f" % (sub.name, cls, got, share))
 
@@ -256,8 +256,8 @@ def _run_property(mod, mod_name, prop, tier, seed, timer, only):
     sub_cov = {}
     for sub in subs:
         rec = per_sub[sub.name]
-        sub_cov[sub.name] = {"evaluations": rec.evaluations,
-                             "distinct_nontrivial": len(rec.nontrivial),
+        sub_cov[sub.name] = {"evaluations": rec.evaluations, "cases": rec.cases,
+                             "distinct_nontrivial": rec.n_nontrivial(),
                              "classes": dict(sorted(rec.classes.items())),
                              "discards": dict(rec.discards),
                              "exhaustive": bool(rec.exhaustive),
@@ -278,7 +278,7 @@ def _run_property(mod, mod_name, prop, tier, seed, timer, only):
 
     coverage = {
         "evaluations": total.evaluations + n_reg,
-        "distinct_nontrivial": len(total.nontrivial),
+        "distinct_nontrivial": total.n_nontrivial(),
         "rule": mod.RULE,
         "samples": samples or [{"note": "no case completed"}],
         "exhaustive": bool(subs) and all(per_sub[s.name].exhaustive for s in subs),
@@ -299,7 +299,7 @@ def _run_property(mod, mod_name, prop, tier, seed, timer, only):
 
     for ln in lines:
         print(ln)
-    summary = ", ".join("%s=%d/%d" % (s.name, len(per_sub[s.name].nontrivial),
+    summary = ", ".join("%s=%d/%d" % (s.name, per_sub[s.name].n_nontrivial(),
                                        per_sub[s.name].evaluations) for s in subs)
     print("%s %s seed=%s: %d cases, %d distinct non-trivial, %d violation class(es), %.1fs  [%s]"
           % (prop, tier, seed, coverage["evaluations"], coverage["distinct_nontrivial"],
